@@ -138,8 +138,9 @@ func c18One(c *ctx, rn c18Run) {
 	tcpA, sniA, grpcA := fmt.Sprintf("127.0.0.1:%d", freePort()), fmt.Sprintf("127.0.0.1:%d", freePort()), fmt.Sprintf("127.0.0.1:%d", freePort())
 	addr := fmt.Sprintf("%s,%s;cs=cs1", httpA, httpsA)
 	dynA := fmt.Sprintf("127.0.0.1:%d", freePort()) // served by the tcp-dynamic listener (refresh 200ms)
+	mixPort := freePort() // an https+tcp+sni listener, its address written in the usual bare form ":port"
 	if !rn.NoTCP {
-		addr += fmt.Sprintf(",%s;proto=tcp,%s;proto=tcp+sni,127.0.0.1:%d;proto=tcp-dynamic;refresh=200ms", tcpA, sniA, freePort())
+		addr += fmt.Sprintf(",%s;proto=tcp,%s;proto=tcp+sni,127.0.0.1:%d;proto=tcp-dynamic;refresh=200ms,:%d;proto=https+tcp+sni;cs=cs1", tcpA, sniA, freePort(), mixPort)
 	}
 	if !rn.NoGRPC {
 		addr += fmt.Sprintf(",%s;proto=grpc", grpcA)
@@ -157,6 +158,10 @@ func c18One(c *ctx, rn c18Run) {
 		fmt.Sprintf("route add tcpsvc :%s tcp://%s opts \"proto=tcp\"", tcpPort, eln.Addr()),
 		fmt.Sprintf("route add snisvc sni.test/ tcp://%s opts \"proto=tcp\"", eln.Addr()),
 		fmt.Sprintf("route add dynsvc %s tcp://%s", dynA, eln.Addr()),
+	}
+	if !rn.NoTCP {
+		// a tcp route that names the static listener's port, there for a few refresh intervals and then withdrawn (below)
+		lines = append(lines, fmt.Sprintf("route add passing :%d tcp://%s opts \"proto=tcp\"", mixPort, eln.Addr()))
 	}
 	rg.setManual(strings.Join(lines, "\n"))
 	rg.agent.Update(func(nodes map[string]*fakeconsul.Node, insts map[string]*fakeconsul.Instance) {
@@ -178,6 +183,20 @@ func c18One(c *ctx, rn c18Run) {
 		if !fabioproc.WaitListening(a, 20*time.Second) {
 			c.R.Inconcl("%s: listener %s did not come up", desc, a)
 			return
+		}
+	}
+	if !rn.NoTCP {
+		// the route history before shutdown: the tcp route on the static listener's port goes away; the tcp-dynamic refresh
+		// loop (200ms) sees a port that has lost its route
+		time.Sleep(500 * time.Millisecond)
+		rg.setManual(strings.Join(lines[:len(lines)-1], "\n"))
+		if err := rg.barrier(); err != nil {
+			c.R.Inconcl("barrier: %v", err)
+			return
+		}
+		time.Sleep(700 * time.Millisecond)
+		if !fabioproc.WaitListening(fmt.Sprintf("127.0.0.1:%d", mixPort), 2*time.Second) {
+			c.R.Violate("c18:static-listener-closed-by-a-route-change", fmt.Sprintf("%s: the https+tcp+sni listener :%d no longer accepts connections after a tcp route naming its port was withdrawn (long before shutdown)", desc, mixPort), nil)
 		}
 	}
 	if !rn.NoGRPC {
